@@ -44,10 +44,9 @@ ASSUMPTIONS = [
     'names any other observing image "unknown" (theorem track_of_unposed_image_is_unknown states this boundary)',
     'image sizes are integers, colours are integers in 0..255, match indices fit uint32, image names hold no comma, no '
     'double space and do not start with "#" (COLMAP\'s text format)',
-    'REPORTED FINDING, excluded from the generated distribution unless C13_REPORTED=1: a dataset without trajectories '
-    'cannot be looped (export writes no images.txt but a points3D.txt; import_colmap.py:148 asserts; with rigs '
-    'export_colmap.py:82 asserts); the oracle gives these the signatures raises:import:AssertionError / '
-    'raises:export:AssertionError',
+    'datasets WITHOUT a trajectories part (15% of the cases) are judged by the oracle only, not by the model: before the fix: '
+    'commits 053a33d / da7c1e5 they could not be looped (import asserted on the missing images.txt; with rigs the export '
+    'asserted); signatures raises:import:AssertionError / raises:export:AssertionError',
     'IEEE rounding is not modelled: poses are compared with the exact rational model at 1e-9 (rotation matrix entries '
     'absolute, translation relative to the magnitudes involved)',
     'an all-empty keypoints / descriptors set comes back with the importer\'s default width; row counts are compared',
@@ -58,7 +57,7 @@ PARTIAL = ('the theorems cover the discrete plumbing and arithmetic core (camera
            'arithmetic, match column swap, points/tracks, world pose of rig-mounted cameras); the SQLite / text / numpy-blob '
            'plumbing, float printing and parsing and the csv loader are exercised by the full export -> import loops only')
 
-INCLUDE_REPORTED = os.environ.get('C13_REPORTED') == '1'
+INCLUDE_REPORTED = os.environ.get('C13_REPORTED', '1') == '1'
 TOL = Fraction(1, 10 ** 9)
 COLMAP_MODELS = {'SIMPLE_PINHOLE': 3, 'PINHOLE': 4, 'SIMPLE_RADIAL': 4, 'RADIAL': 5, 'OPENCV': 8, 'OPENCV_FISHEYE': 8,
                  'FULL_OPENCV': 12, 'FOV': 5, 'SIMPLE_RADIAL_FISHEYE': 4, 'RADIAL_FISHEYE': 5, 'THIN_PRISM_FISHEYE': 12}
